@@ -79,7 +79,7 @@ class Conv:
             steps.append(["reset", c])
             steps.append(["sleep", self.settle_ms])
         steps.append(["recv_eof", c, 400 if self.will_stay_open() else 1500])
-        return {
+        return dict({
             "id": self.sid, "local_as": self.local_as, "remote_as": self.remote_as, "local_id": self.local_id,
             "hold": self.hold, "passive": self.direction == "in", "idle_hold_ms": 3000, "connect_retry_ms": 3000,
             "caps": [[c, v.hex()] for c, v in self.caps],
@@ -87,7 +87,7 @@ class Conv:
             "handler": [None if h is None else [h[0], h[1], bytes(h[2]).hex()] for h in self.handler],
             "est_writes": [bytes(w).hex() for w in self.est_writes],
             "steps": steps,
-        }
+        }, **getattr(self, "scenario_extra", {}))
 
     def segment_steps(self, c, last=True):
         """steps for this conversation on connection name c (used by Multi)"""
@@ -124,6 +124,7 @@ class Conv:
         # the model's stop index counts reader events; messages are built so that each complete
         # well-formed message yields one event and a stop is only placed before any faulty message
         stop = 9999 if self.stop_after is None else self.stop_after
+        stop = getattr(self, "model_stop", stop)
         ints = [self.local_id, self.local_as, self.remote_as, self.hold, 1 if self.eof else 0, stop]
         bs = [stream]
         if self.on_open is None:
